@@ -314,6 +314,11 @@ Definition eval_dict (ctx : dict) : list (string * json) -> dict -> M dict :=
     | [] => ret acc
     | (k, v) :: kv' =>
         k' <- lift_eval (ev k ctx) ;;
+        (match k' with
+         | JList _ => raise (exn_unhashable_key "list" k)
+         | JDict _ => raise (exn_unhashable_key "dict" k)
+         | _ => ret tt
+         end) ;;;
         v' <- evaluate ev v ctx ;;
         match k' with
         | JStr ks => go kv' (dset ks v' acc)
@@ -336,6 +341,11 @@ Proof. reflexivity. Qed.
 Lemma eval_dict_cons : forall ctx k v kv acc,
   eval_dict ctx ((k, v) :: kv) acc =
   (k' <- lift_eval (ev k ctx) ;;
+   (match k' with
+    | JList _ => raise (exn_unhashable_key "list" k)
+    | JDict _ => raise (exn_unhashable_key "dict" k)
+    | _ => ret tt
+    end) ;;;
    v' <- evaluate ev v ctx ;;
    match k' with
    | JStr ks => eval_dict ctx kv (dset ks v' acc)
@@ -401,8 +411,10 @@ Proof.
     { induction IH as [|[k v] kv' Hx Hl IHl]; intros acc c0; [reflexivity|].
       rewrite !eval_dict_cons. unfold bind. rewrite (Hev k).
       destruct (lift_eval (ev' k ctx) c0) as [c1 [k'|e]]; [|reflexivity].
-      simpl in Hx. rewrite (Hx c1). destruct (evaluate ev' v ctx c1) as [c2 [v'|e]]; [|reflexivity].
-      destruct k'; try reflexivity. apply IHl. }
+      simpl in Hx.
+      destruct k'; cbn [raise ret]; try reflexivity;
+        rewrite (Hx c1); (destruct (evaluate ev' v ctx c1) as [c2 [v'|e]]; [|reflexivity]);
+        try reflexivity. apply IHl. }
     rewrite (G [] c). reflexivity.
 Qed.
 
